@@ -307,7 +307,7 @@ def chao1(counts):
     if (len(counts) == 1) or (counts[1] == 0):
         return Sobs + (f1*(f1-1))/2
 
-    f2 = counts[1]
+    f2 = float(counts[1])
     return Sobs + f1**2/(2*f2)
 
 def var_chao1(counts):
@@ -338,7 +338,7 @@ def chao2(counts, m):
     if (len(counts) == 1) or (counts[1] == 0):
         return np.nan
 
-    q2 = counts[1]
+    q2 = float(counts[1])
     return Sobs + q1**2/(2*q2) 
 
 def var_chao2(counts, m):
